@@ -652,7 +652,7 @@ def task_file(rel, tier, part=0, nparts=1):
 # ---------------------------------------------------------------------------
 
 QUICK_FILES = ('AUTOUGH2/1/case1.listing', 'AUTOUGH2/2/case2.listing', 'AUTOUGH2/3/case3.listing', 'AUTOUGH2/5/case5.listing',
-               'AUTOUGH2/6/case6.listing', 'AUTOUGH2/8/case8.listing',
+               'AUTOUGH2/6/case6.listing',
                'TOUGH2/1/r1q.listing', 'TOUGH2/2/rfp.listing', 'TOUGH2/8/OUTFILE', 'TOUGH2/11/case11.listing',
                'TOUGH2-MP/1/OUTPUT_DATA', 'TOUGH2-MP/2/OUTPUT_DATA', 'TOUGH2-MP/3/OUTPUT_DATA', 'TOUGH2-MP/6/OUTPUT_DATA', 'TOUGH2-MP/7/OUTPUT_DATA',
                'TOUGH3/1/OUTPUT', 'TOUGH3/2/OUTPUT', 'TOUGH3/4/OUTPUT',
@@ -685,6 +685,7 @@ def run(tier, seed, rep):
             rep.outside.append('%s: %d paths (a symbolic sign cell forked the reader)' % (r['name'], r['stats']['paths']))
         ncalls += ex.get('calls', 0); nitems += ex.get('items', 0); nlines += ex.get('symbolic_lines', 0); nont += ex.get('nonterminating_calls', 0)
     rep.extra['history_calls'] = ncalls
+    rep.extra['operations_executed'] = ncalls      # every history() call is a transition of the reader's state (counted in coverage.transitions)
     rep.extra['history_items'] = nitems
     rep.extra['nonterminating_calls'] = nont
     rep.bounds += [
@@ -699,11 +700,13 @@ def run(tier, seed, rep):
         'starting index: every full result set when there are <= %d, else %d of them (first, last, interior), dealt over the calls' % ((4, 4) if tier == 'quick' else (8, 8)),
         'symbolic values: %d lines in total - in EVERY result set the lines of the first / interior / last row of every table (and of the first / last row of every '
         'SHORT table): every digit (mantissa and exponent) a symbolic digit, every sign position a symbolic cell over {blank, minus}; in the lines from which '
-        'setup_table_* infers the layout (first and longest row of the first result set) only the digits' % nlines,
+        'setup_table_* infers the layout (first and longest row of the first result set) and before numbers printed with a letterless three-digit '
+        'exponent only the digits; the count includes the header line of every result set of TOUGH2-family files, whose TOTAL TIME digits are symbolic' % nlines,
         'termination budget per history() call: (lines in the file) x (result sets + 2) readline calls, at most 1000 end-of-file returns, 120 s wall clock',
     ]
     rep.outside += [
-        'row names, column names, marker / header lines and result-set headers (times, steps) are the shipped text: times and result shape are compared concretely on each path',
+        'row names, column names, marker / table-header lines, step numbers and AUTOUGH2 result-set headers are the shipped text: result shape, order, index / step '
+        'and AUTOUGH2 times are compared concretely on each explored path',
         'rows other than the chosen ones are the shipped text (they are read by stepping, skipped by history())',
         'start_datetime; selections of more than 3 tables except the two all-table lists; editor backups (reading them never ends) and .npy files',
         'termination is decided per explored path with a finite budget: the control flow of history() does not depend on the symbolic cells',
